@@ -4,7 +4,7 @@ package server
 //
 // Sequential monitor: every history over {prepare(n,v), commit(n), delete(n)} up to a
 // bound runs on the real Manager; after every step the namespace set, the versions and the
-// user table seen through Manager.GetNamespace / CheckUser / GetNamespaceByUser are compared
+// user table seen through Manager.GetNamespace / CheckUser / GetNamespaceByUser / CheckPassword are compared
 // with the abstract specification (active map + last-prepared map; a failing commit
 // changes nothing; a successful commit(n) needs a prepared configuration of n and
 // activates exactly it).
@@ -51,8 +51,33 @@ type c31Fail struct {
 
 func c31User(ns string) string { return "u_" + ns }
 func c31Password(v int) string { return fmt.Sprintf("p%d", v) }
+
+// c31SharedUser is configured in every namespace, with a password per (namespace, version):
+// one user name with several passwords in a generation, as UserManager supports.
+const c31SharedUser = "shared"
+
+func c31SharedPassword(ns string, v int) string { return fmt.Sprintf("s_%s_%d", ns, v) }
+
+func c31Users(ns string, v int) []mgUser {
+	return []mgUser{{User: c31User(ns), Password: c31Password(v)}, {User: c31SharedUser, Password: c31SharedPassword(ns, v)}}
+}
+
 func c31Config(ns string, v int) *models.Namespace {
-	return mgNamespaceConfig(ns, v, []mgUser{{User: c31User(ns), Password: c31Password(v)}})
+	return mgNamespaceConfig(ns, v, c31Users(ns, v))
+}
+
+var (
+	c31Salt   = []byte("c31-fixed-salt-20-by")
+	c31Proofs sync.Map // password -> mysql_native_password proof for c31Salt (independent implementation)
+)
+
+func c31Proof(password string) []byte {
+	if p, ok := c31Proofs.Load(password); ok {
+		return p.([]byte)
+	}
+	p := mgNativeProof(c31Salt, []byte(password))
+	c31Proofs.Store(password, p)
+	return p
 }
 
 func c31Key(c c31Case) string {
@@ -73,6 +98,7 @@ type c31View struct {
 	Version      int   // -1: GetNamespace returned nil
 	UserKnown    bool  // CheckUser(u_ns)
 	UserVersions []int // versions v with GetNamespaceByUser(u_ns, p_v) == ns
+	SharedPass   []int // versions v whose shared-user password s_ns_v passes Manager.CheckPassword
 }
 
 func c31Observe(m *Manager, ns string, maxV int) c31View {
@@ -84,6 +110,12 @@ func c31Observe(m *Manager, ns string, maxV int) c31View {
 	for i := 0; i <= maxV; i++ {
 		if m.GetNamespaceByUser(c31User(ns), c31Password(i)) == ns {
 			v.UserVersions = append(v.UserVersions, i)
+		}
+		// the password list of a user name shared by all namespaces (CheckPassword walks
+		// UserManager.users, which GetNamespaceByUser does not touch)
+		pw := c31SharedPassword(ns, i)
+		if ok, got := m.CheckPassword(c31SharedUser, c31Salt, append([]byte(nil), c31Proof(pw)...)); ok && got == pw {
+			v.SharedPass = append(v.SharedPass, i)
 		}
 	}
 	return v
@@ -109,6 +141,14 @@ func c31Run(st *StatisticManager, c c31Case, count func(string, int64)) *c31Fail
 				want = -1
 			}
 			got := c31Observe(m, n, len(c.Ops))
+			wantShared := []int{}
+			if want >= 0 {
+				wantShared = []int{want}
+			}
+			if fmt.Sprint(wantShared) != fmt.Sprint(append([]int{}, got.SharedPass...)) {
+				kinds["shared-user-passwords-differ"] = true
+				details = append(details, fmt.Sprintf("namespace %s at version %d: passwords of versions %v of the user name shared by all namespaces pass the password check", n, want, got.SharedPass))
+			}
 			switch {
 			case want >= 0 && got.Version < 0:
 				kinds["lost"] = true
@@ -156,7 +196,7 @@ func c31Run(st *StatisticManager, c c31Case, count func(string, int64)) *c31Fail
 			case "P":
 				err = m.ReloadNamespacePrepare(c31Config(op.N, i+1))
 			case "F":
-				err = m.ReloadNamespacePrepare(mgBrokenConfig(op.N, i+1, []mgUser{{User: c31User(op.N), Password: c31Password(i + 1)}}))
+				err = m.ReloadNamespacePrepare(mgBrokenConfig(op.N, i+1, c31Users(op.N, i+1)))
 			case "C":
 				err = m.ReloadNamespaceCommit(op.N)
 			case "D":
